@@ -148,6 +148,8 @@ NAMES = [
     ("Stamp", None, None), ("Seq", None, "SEQ"), ("Owner", None, None), ("Group", None, None),
     ("Quota", None, None), ("Limit", None, None), ("Offset", None, None), ("Cursor", None, None),
     ("XMLBody", "XmlBody", "Xmlbody"), ("JSONData", "JsonData", None), ("Ver", None, "VER"), ("Tag", None, None),
+    # acronyms that end in a digit (splitCamelTokens: the digit belongs to the acronym)
+    ("SHA1Sum", "Sha1Sum", None), ("UTF8Name", "Utf8Name", None), ("MD5", "Md5", None),
 ]
 # names containing `_`: healthy as plain names on both sides and as the source of a snake/Pascal tag; as the TARGET of a
 # tag, or tagged themselves, they are the class of K_map_tag_underscore (tag_guard decides)
@@ -1462,6 +1464,25 @@ def corpus():
             [st("T", [_f("UserID", B("int")), _f("Name", B("string"))])],
             [st("Inner", [_f("UserID", B("int")), _f("Note", B("string"))]),
              st("T", (dflds if order == 0 else dflds[::-1]) + [_f("Name", B("string"))])],
+            [_job("T", "T")]))
+    # 26. a written field promoted through THREE embedded pointers whose middle structs declare no field of their own: the
+    #     allocation list must contain every hop (A, A.B, A.B.C), parents first -- on the destination (ToX) and source (FromX) side
+    res.append(_spec(
+        [st("SC", [_f("W", B("int"))]), st("SB", [_f("SC", P(N("src", "SC")), emb=True)]), st("SA", [_f("SB", P(N("src", "SB")), emb=True)]),
+         st("T", [_f("SA", P(N("src", "SA")), emb=True), _f("Z", B("int")), _f("ID", B("int"))])],
+        [st("C", [_f("Z", B("int"))]), st("B", [_f("C", P(N("dst", "C")), emb=True)]), st("A", [_f("B", P(N("dst", "B")), emb=True)]),
+         st("T", [_f("A", P(N("dst", "A")), emb=True), _f("W", B("int")), _f("ID", B("int"))])],
+        [_job("T", "T")]))
+    # 27./28. diamond embedding: the same struct embedded by pointer at two depths (T{*A; *Common}, A{*Common}), mapped field in
+    #     Common; Go resolves Z to the SHALLOWER T.Common.Z whatever the declaration order; both orders, on both sides
+    for order in (0, 1):
+        se = [_f("SA", P(N("src", "SA")), emb=True), _f("SCommon", P(N("src", "SCommon")), emb=True)]
+        de = [_f("DA", P(N("dst", "DA")), emb=True), _f("DCommon", P(N("dst", "DCommon")), emb=True)]
+        res.append(_spec(
+            [st("SCommon", [_f("Z", B("int")), _f("Y", B("string"))]), st("SA", [_f("SCommon", P(N("src", "SCommon")), emb=True)]),
+             st("T", (se if order == 0 else se[::-1]) + [_f("ID", B("int"))])],
+            [st("DCommon", [_f("Z", B("int64")), _f("Y", B("string"))]), st("DA", [_f("DCommon", P(N("dst", "DCommon")), emb=True)]),
+             st("T", (de if order == 0 else de[::-1]) + [_f("ID", B("int"))])],
             [_job("T", "T")]))
     res.append(_spec(
         [st("Mapper", []), st("T", [_f("Mapper", N("src", "Mapper"), emb=True), _f("ID", B("int")), _f("Amt", B("string")),
